@@ -38,7 +38,7 @@ var c08Keys = []c08Key{
 	{"mup", "2", "int", []string{"0", "-1"}}, {"tfdt", "32", "flag", nil}, {"cont", "1", "flag", nil}, {"periods", "60", "int", nil}, {"xlink", "60", "int", nil},
 	{"etp", "60", "int", nil}, {"etpDuration", "10", "int", nil}, {"insertad", "1", "flag", nil}, {"continuous", "1", "flag", nil}, {"segtimeline", "1", "flag", nil},
 	{"segtimelinenr", "1", "flag", nil}, {"peroff", "1", "int", nil}, {"scte35", "2", "int", []string{"0", "4", "-1"}}, {"utc", "direct-head", "str", nil},
-	{"snr", "5", "int", nil}, {"ato", "1.0", "float", nil}, {"ltgt", "2000", "int", nil}, {"spd", "10", "int", nil}, {"sidx", "1", "flag", nil},
+	{"snr", "5", "int", []string{"-1"}}, {"ato", "1.0", "float", []string{"-1"}}, {"ltgt", "2000", "int", nil}, {"spd", "10", "int", nil}, {"sidx", "1", "flag", nil},
 	{"segtimelineloss", "1", "flag", nil}, {"chunkdur", "0.5", "float", []string{"-1"}}, {"timesubsstpp", "en,sv", "str", nil}, {"timesubswvtt", "en", "str", nil},
 	{"timesubsdur", "800", "int", nil}, {"timesubsreg", "1", "int", []string{"2", "-1"}}, {"statuscode", "[{cycle:30,rsq:0,code:404,rep:video}]", "str", nil},
 	{"traffic", "u20d10", "str", nil}, {"drm", "EZDRM-1-key-cbcs-test", "str", nil}, {"eccp", "cenc", "str", nil}, {"patch", "60", "int", nil}, {"annexI", "a=1,b=2", "str", nil},
